@@ -253,6 +253,14 @@ def shared_state_obligations(ctx, rep, rule, eff, funcs, sequential=False):
                                      key=f"{rule}|{f.qualname}|attr|{norm(t)}")
 
 
+def _walked_helper(m, target) -> bool:
+    """Is this call one that the worker walk follows into (a helper of the server module)?  Its failures are those of the
+    calls inside it."""
+    pol = _server_helpers(m)
+    return target is not None and target.kind == "repo" and len(target.funcs) == 1 and target.funcs[0] is not None \
+        and not target.by_name and pol(target.funcs[0], target, 0)
+
+
 def _server_helpers(m):
     """Inline policy: helpers of the server module that a worker entry point is built from."""
     noin = ("wrap_socket", "finish_request", "handle_error", "shutdown_request", "close_request", "server_bind", "__init__")
@@ -386,7 +394,7 @@ def check(ctx, rep):
 
             def rp(call, target):
                 # anything the worker calls on the server object can fail (peek on a reset connection, handshake, handler, ...)
-                if isinstance(call.func, ast.Attribute) and dotted(call.func.value) == "self":
+                if isinstance(call.func, ast.Attribute) and dotted(call.func.value) == "self" and not _walked_helper(m, target):
                     return ["OSError"]
                 return []
             w = Walker(prog, ctx.resolver, raise_points=rp, inline=_server_helpers(m))
@@ -427,7 +435,8 @@ def check(ctx, rep):
             n_w += 1
 
             def rp2(call, target):
-                if isinstance(call.func, ast.Attribute) and dotted(call.func.value) == "self" and call.func.attr not in ("handle_error", "shutdown_request"):
+                if isinstance(call.func, ast.Attribute) and dotted(call.func.value) == "self" and call.func.attr not in ("handle_error", "shutdown_request") \
+                        and not _walked_helper(m, target):
                     return ["OSError", "ValueError"]
                 return []
             w = Walker(prog, ctx.resolver, raise_points=rp2, inline=_server_helpers(m))
